@@ -266,6 +266,7 @@ func c20Backtrace(c *Ctx, r *rand.Rand) {
 	}
 	var vars []variant
 	for i := 0; i < nvar; i++ {
+		btVariant = i
 		bp := btBuild(r, i%2 == 1)
 		vars = append(vars, variant{bp, btLoad(bp, true), btLoad(bp, false)})
 	}
@@ -742,6 +743,9 @@ type btProgram struct {
 
 // btBuild generates the script-interpreter program. variant drives the layout (function order, case
 // order, padding lines, one or two files).
+// btVariant: index of the program being built (0: plain; 1: headers before the package clauses; 2: many names first)
+var btVariant int
+
 func btBuild(r *rand.Rand, twoFiles bool) *btProgram {
 	bp := &btProgram{files: map[string]string{}, sites: map[btSiteKey]btPos{}, faults: map[btFaultKey]btPos{}}
 	bp.nshapes = make([]int, len(btFns))
@@ -765,9 +769,26 @@ func btBuild(r *rand.Rand, twoFiles bool) *btProgram {
 		f.line += 1 + strings.Count(s, "\n")
 		return ln
 	}
+	// lines before the package clause (licence comment, build constraint, blank lines): positions count from the file's
+	// first line
+	if btVariant%3 == 1 {
+		emit(fa, "// Copyright header.\n// Second line.\n\n//go:build goat\n")
+	}
 	emit(fa, "package main\n\nimport \"strings\"\n")
 	if twoFiles {
+		if btVariant%3 == 1 {
+			emit(fb, "//go:build goat || linux\n\n// about this file\n")
+		}
 		emit(fb, "package main\n")
+	}
+	// in every third program some hundred other functions are declared first (the interpreter's functions then have
+	// large indexes in the VM's name table)
+	if btVariant%3 == 2 {
+		var pad strings.Builder
+		for k := 0; k < 140; k++ {
+			fmt.Fprintf(&pad, "func pad%d(x int) int { return x + %d }\n", k, k)
+		}
+		emit(fa, pad.String())
 	}
 	emit(fa, "type T struct {\n\tX int\n}\n\nfunc (t *T) Get() int {\n\treturn t.X\n}\n")
 	emit(fa, "var script []int\nvar pc int\nvar zero int\nvar nilm map[int]int\nvar nilp *T\nvar nilf func()\nvar nils []int\nvar str string = \"ab\"\nvar recv *T = &T{X: 1}\n")
